@@ -493,6 +493,14 @@ func (a *appGenerator) makeCodegenApp() (GenApp, error) {
 	}
 
 	jsonb, _ := json.MarshalIndent(a.SpecDoc.OrigSpec(), "", "  ")
+	if raw := a.SpecDoc.Raw(); len(raw) > 0 {
+		// OrigSpec() is a clone made with encoding/gob, which drops pointers to zero values
+		// ("minimum": 0, "maxItems": 0, ...): embed the raw original document when we have it
+		var indented bytes.Buffer
+		if err := json.Indent(&indented, raw, "", "  "); err == nil {
+			jsonb = indented.Bytes()
+		}
+	}
 	flatjsonb, _ := json.MarshalIndent(a.SpecDoc.Spec(), "", "  ")
 
 	return GenApp{
